@@ -38,6 +38,7 @@ META = {
 
 REF = cont(("a", [(0, 3, "x"), (5, 8, "y")]), ("b", [(1, 3, "x"), (5, 9, "x")]))
 REF3 = cont(("a", [(0, 3, "x"), (5, 8, "y")]), ("b", [(1, 3, "x"), (5, 9, "x")]), ("c", [(0, 2, "y"), (4, 8, "y"), (9, 10, "x")]))
+CROWDED = cont(*[(f"a{i}", [(i, 25 + i, "x"), (33 + i, 58 + i - 5, "y")]) for i in range(5)])
 RECIPE = {"k": "comb", "a": 1.0, "b": 1.0, "de": 1.0}
 
 
@@ -53,6 +54,9 @@ def driver_configs():
     # a reference large enough for fast-gamma to pick a finite window (the windowed path really runs in the jobs)
     out.append({"sampler": "shuffle", "mode": "fast", "n": 2, "prec": None, "big": [5, 8]})
     out.append({"sampler": "shuffle", "mode": "exact", "n": 2, "prec": 0.5})
+    # a crowded reference: more annotators x average unit length than the annotated span, so the shuffle sampler runs
+    # out of room for separated pivots and takes its last-resort branch
+    out.append({"sampler": "shuffle", "mode": "exact", "n": 2, "prec": None, "crowded": True})
     return out
 
 
@@ -69,6 +73,8 @@ def make_driver(dc, seed=5):
         if dc.get("big"):
             from ..universe import fam_staircase
             c = build_continuum(fam_staircase(*dc["big"]))
+        elif dc.get("crowded"):
+            c = build_continuum(CROWDED)
         else:
             c = build_continuum(REF3 if dc.get("gt") else REF)
         s = None if dc["sampler"] == "stat" else sched.trace_containers(pa.ShuffleContinuumSampler())
@@ -92,7 +98,7 @@ def configs(tier):
     dcs = driver_configs()
     for i, dc in enumerate(dcs):
         for W in (1, 2, 3):
-            if dc.get("big"):
+            if dc.get("big") or dc.get("crowded"):
                 if W != 2:
                     continue
                 bound = 1
